@@ -2098,6 +2098,11 @@ func (m *repoManager) findMatch(kvv kvVersions, v dvid.VersionID) (*storage.KeyV
 		case 0:
 			return nil, 0, nil
 		case 1:
+			// Use the surviving match, which is not necessarily the last one found.
+			for fv := range foundVs {
+				foundKV = kvv[fv].kv
+				foundV = fv
+			}
 			if foundKV.K == nil {
 				return nil, 0, fmt.Errorf("found nil key in ascending version path for kv: %v", foundKV)
 			}
